@@ -158,7 +158,7 @@ class Translator:
         if isinstance(e, (ast.Tuple, ast.List)):
             if any(isinstance(x, ast.Starred) for x in e.elts):
                 raise Unsupported("starred element")
-            return "(ETuple %s)" % lst([expr(x) for x in e.elts])
+            return "(%s %s)" % ("ETuple" if isinstance(e, ast.Tuple) else "EList", lst([expr(x) for x in e.elts]))
         if isinstance(e, ast.Subscript):
             sl = e.slice
             if isinstance(sl, ast.Slice):
